@@ -20,10 +20,12 @@ META = {
                  "unpack.UnpackSquashed*/image.FromV1Image/FromTarball/CleanUp run in a sandbox with before/after snapshots",
     "level_text": "Theorems: layer_write_contained (for ALL entry names the layer-scanning writer's real path is the layer "
                   "directory or below), layer_run_contained / cleanup_removes_all (file-system level), unpack_contained_on_D and "
-                  "unpack_links_inside_on_D (entry lists whose cleaned names do not climb and whose link targets contain no '..'), "
-                  "target_outside_root_sound; the unrestricted unpack statements are REFUTED with machine-checked witnesses "
-                  "(prefix confusion '../target-evil/f', directories created before the check, link escape 's -> .', 'a/t -> ../s/..', "
-                  "write through an escaped link). Model = implementation is re-established on every run by vm_compute on the exact "
+                  "unpack_links_inside_on_D (ANY entry names; link targets without a '..' component), unpack_contained_without_links "
+                  "(full strength for archives without link entries; the statement the fixed prefix-confusion / mkdir-before-check "
+                  "defects refuted, fix c7e8b5e1), target_outside_root_sound; what is still false is REFUTED with machine-checked "
+                  "witnesses (link escape 's -> .', 'a/t -> ../s/..'; directory creation through the escaped link). Oracles claimed on "
+                  "every unpack case, also outside D: no new file outside the target; no kept link whose stored target climbs "
+                  "lexically (except the write-through-link shape). Model = implementation is re-established on every run by vm_compute on the exact "
                   "tar streams the real code was run on (final tree, error flag, link resolutions). PARTIAL: the scan half of the "
                   "property (extractors never write into the scanned tree / leave temp files) is a snapshot oracle only.",
     "level_note": "Trusted: Coq kernel + vm_compute; Go harness harness/cmd/contain (sandbox, snapshots, tar generation); the OS and "
@@ -35,16 +37,15 @@ META = {
 }
 
 THEOREMS = ["layer_write_contained", "layer_run_contained", "cleanup_removes_all", "unpack_contained_on_D",
-            "unpack_links_inside_on_D", "target_outside_root_sound",
-            "unpack_prefix_confusion_refuted", "unpack_mkdir_before_check_refuted", "unpack_link_escape_refuted",
-            "unpack_link_write_through_refuted"]
+            "unpack_contained_without_links", "unpack_links_inside_on_D", "target_outside_root_sound",
+            "unpack_link_escape_refuted", "unpack_link_mkdir_through_refuted"]
 
 CORR_NAME = ("unpack.UnpackSquashed/UnpackSquashedFromTarball, image.FromV1Image/FromTarball/CleanUp, path.Clean/Join, "
              "filepath.Dir, path.Base, symlink.TargetOutsideRoot (Go) vs Contain.Model unpack_all / image_run / PathBytes (Coq, vm_compute)")
 
 SIZES = {
-    "quick": {"unpack": 330, "scenario": 220, "indomain": 220, "image": 270, "paths": 2500, "scan": 1},
-    "thorough": {"unpack": 4000, "scenario": 2000, "indomain": 2000, "image": 3000, "paths": 30000, "scan": 12},
+    "quick": {"unpack": 260, "scenario": 180, "indomain": 160, "linkshape": 220, "image": 220, "paths": 2500, "scan": 1},
+    "thorough": {"unpack": 4000, "scenario": 2000, "indomain": 2000, "linkshape": 3000, "image": 3000, "paths": 30000, "scan": 12},
 }
 
 
@@ -73,27 +74,36 @@ def eval_chunks(ctx, vfile, tag="C06"):
         v += "Definition spec_bad := Eval vm_compute in bad_indices %s_spec_ok %s 0.\nPrint spec_bad.\n" % (pre, name)
         if kind == "ucases":
             v += "Definition out_d := Eval vm_compute in bad_indices ucase_in_D %s 0.\nPrint out_d.\n" % name
+            v += "Definition spec2_bad := Eval vm_compute in bad_indices ucase_spec2_ok %s 0.\nPrint spec2_bad.\n" % name
+            v += "Definition unclaimed2 := Eval vm_compute in bad_indices ucase_links_claimed %s 0.\nPrint unclaimed2.\n" % name
+            v += "Definition spec3_bad := Eval vm_compute in bad_indices ucase_spec3_ok %s 0.\nPrint spec3_bad.\n" % name
         rc, out = ctx.run_cases("%s_%s" % (tag, name), v)
         cb = vlib.parse_printed_list(out, "corr_bad")
         sb = vlib.parse_printed_list(out, "spec_bad")
         od = vlib.parse_printed_list(out, "out_d") if kind == "ucases" else []
-        if rc != 0 or cb is None or sb is None or od is None:
+        s2 = vlib.parse_printed_list(out, "spec2_bad") if kind == "ucases" else []
+        u2 = vlib.parse_printed_list(out, "unclaimed2") if kind == "ucases" else []
+        s3 = vlib.parse_printed_list(out, "spec3_bad") if kind == "ucases" else []
+        if rc != 0 or cb is None or sb is None or od is None or s2 is None or u2 is None or s3 is None:
             raise RuntimeError("cases shard %s failed: %s" % (name, out[-2000:]))
         off = int(num) * PER[kind]
-        return kind, [off + i for i in cb], [off + i for i in sb], [off + i for i in od]
+        return kind, [off + i for i in cb], [off + i for i in sb], [off + i for i in od], [off + i for i in s2], [off + i for i in u2], [off + i for i in s3]
 
-    res = {"ucases": ([], [], []), "lcases": ([], [], []), "pcases": ([], [], [])}
+    res = {"ucases": ([], [], [], [], [], []), "lcases": ([], [], [], [], [], []), "pcases": ([], [], [], [], [], [])}
     with ThreadPoolExecutor(max_workers=14) as ex:
-        for kind, cb, sb, od in ex.map(one, range(len(chunks))):
+        for kind, cb, sb, od, s2, u2, s3 in ex.map(one, range(len(chunks))):
+            res[kind][5].extend(s3)
             res[kind][0].extend(cb)
             res[kind][1].extend(sb)
             res[kind][2].extend(od)
+            res[kind][3].extend(s2)
+            res[kind][4].extend(u2)
     return res
 
 
 def run_harness(ctx, binp, sandbox, vfile, side, sizes, known):
     args = [binp, "-sandbox", sandbox, "-out", vfile, "-jsonl", side, "-seed", str(ctx.seed),
-            "-unpack", str(sizes["unpack"]), "-scenario", str(sizes["scenario"]), "-indomain", str(sizes["indomain"]),
+            "-unpack", str(sizes["unpack"]), "-scenario", str(sizes["scenario"]), "-indomain", str(sizes["indomain"]), "-linkshape", str(sizes["linkshape"]),
             "-image", str(sizes["image"]), "-paths", str(sizes["paths"])]
     if known:
         args += ["-known", known]
@@ -131,10 +141,14 @@ def run(ctx):
     vfile = os.path.join(d, "C06_cases.v")
     side = os.path.join(d, "C06_cases.jsonl")
     sizes = SIZES[ctx.tier]
-    known_entries = ctx.known_findings()
+    all_entries = [e for e in (json.load(open(KNOWN_FILE)) if os.path.exists(KNOWN_FILE) else []) if e.get("property") == ctx.pid]
+    known_entries = [e for e in all_entries if e.get("status", "known") == "known"]
+    fixed_entries = [e for e in all_entries if e.get("status") == "fixed"]
     sandbox = tempfile.mkdtemp(prefix="c06sb-")
     try:
-        image_known = [e for e in known_entries if e["witness"].get("half") != "scan"]
+        # regression corpus (witnesses of fixed defects) first, then the witnesses of the known findings
+        image_known = ([dict(e, prefix="regress") for e in fixed_entries if e["witness"].get("half") != "scan"] +
+                       [dict(e, prefix="known") for e in known_entries if e["witness"].get("half") != "scan"])
         kfile = None
         if image_known:
             kfile = os.path.join(d, "C06_known.json")
@@ -156,6 +170,10 @@ def run(ctx):
         corr_bad += [idx[kind][i] for i in res[kind][0]]
         spec_bad += [idx[kind][i] for i in res[kind][1]]
         out_d |= {idx[kind][i] for i in res[kind][2]}
+    # lexical kept-link oracle: claimed on every unpack case without a write-through-link shape
+    spec2_bad = sorted(idx["ucases"][i] for i in res["ucases"][3])
+    spec3_bad = sorted(idx["ucases"][i] for i in res["ucases"][5])
+    unclaimed2 = {idx["ucases"][i] for i in res["ucases"][4]}
     corr_bad.sort()
     spec_bad.sort()
     ctx.log("cases=%d corr_bad=%d spec_bad=%d (outside D: %d of %d unpack cases)" % (
@@ -187,12 +205,27 @@ def run(ctx):
             stale.append((e, why, describe(cases[i])))
     # spec failures outside D are the recorded defect classes (domain of unpack_contained_on_D);
     # inside D, on image cases and on path cases they are violations
-    new_spec_bad = [i for i in spec_bad if i not in out_d]
+    new_spec_bad = sorted(set([i for i in spec_bad if i not in out_d] + spec2_bad + spec3_bad))
+    # regression corpus: the witnesses of fixed defects are held to the property at full strength
+    scan_regress_bad = []
+    for e in fixed_entries:
+        if e["witness"].get("half") == "scan":
+            kw = (scan.get("known_witnesses") or {}).get(e["id"])
+            if kw is None or kw.get("still_fails"):
+                scan_regress_bad.append({"half": "scan", "regression_of": e["id"], "fix_commit": e.get("fix_commit"),
+                                         "witness": e["witness"], "changes": (kw or {}).get("changes")})
+            continue
+        hit = [i for i, c in enumerate(cases) if c.get("stream") == "regress:" + e["id"]]
+        if not hit:
+            stale.append((e, "regression witness was not replayed"))
+            continue
+        if e.get("regression_oracle", "full") == "full" and hit[0] in spec_bad:
+            new_spec_bad = sorted(set(new_spec_bad + [hit[0]]))
     outside_fail = [i for i in spec_bad if i in out_d]
     if outside_fail and not known_entries:
         # a failure outside D without any finding on file is a new violation
-        new_spec_bad = spec_bad
-    scan_bad = scan.get("bad", [])
+        new_spec_bad = sorted(set(spec_bad + spec2_bad + spec3_bad))
+    scan_bad = scan.get("bad", []) + scan_regress_bad
     for b in scan_bad[:3]:
         ctx.violation({"kind": "spec-failure", "half": "scan", "case": b,
                        "explanation": "a scan with built-in extractors changed the scanned tree, the working directory or left "
@@ -230,9 +263,18 @@ def run(ctx):
                                "unpack_cases": nu, "unpack_cases_outside_D": len(out_d),
                                "fraction_rejected_by_D": round(len(out_d) / max(1, nu), 3),
                                "spec_failures_outside_D_(known_defect_classes)": len(outside_fail),
+                               "kept_link_oracle_claimed_cases": nu - len(unclaimed2),
+                               "kept_link_oracle_claimed_outside_D": len([i for i in out_d if i not in unclaimed2]),
+                               "kept_link_oracle_failures": len(spec2_bad),
+                               "no_file_outside_oracle_failures_(claimed_on_all_unpack_cases)": len(spec3_bad),
                                "calls_returning_error": sum(1 for c in cases if c.get("err"))},
         "vm_compute_cases": len(cases),
         "scan_half": scan,
+        "regression_corpus": [{"id": e["id"], "fix_commit": e.get("fix_commit"), "oracle": e.get("regression_oracle", "full")} for e in fixed_entries],
+        "kept_link_oracle": "on every unpack case whose entry names do not pass through the name of a link entry (inside AND outside D): "
+                            "no link left below the target may have a stored target that, read lexically from the link's own directory, "
+                            "climbs above the target (relative) or is not below the target (absolute); backed by theorem "
+                            "target_outside_root_sound; unclaimed region = exactly the write-through / 's -> .' link-chain shape",
         "explanation": "correspondence (model = implementation) is checked on every case incl. outside D; the containment oracle is "
                        "claimed on every image/layer case, every path case and on unpack cases inside D; outside D the recorded "
                        "defects apply (KNOWN_FINDINGS.d/C06.json, replayed every run). Scan half: oracle only (partial).",
@@ -309,14 +351,14 @@ def replay(ctx, path):
              "Import ListNotations.\nOpen Scope N_scope.\nDefinition bpre : path := %s.\n" % bpre[0][len("coq-bpre: "):])
         if uc:
             v += ("Definition c : ucase := %s.\nDefinition model := Eval vm_compute in uc_model c.\nPrint model.\n"
-                  "Definition verdicts := Eval vm_compute in (ucase_model_ok c, ucase_spec_ok c, ucase_in_D c).\nPrint verdicts.\n"
+                  "Definition verdicts := Eval vm_compute in (ucase_model_ok c, ucase_spec_ok c, ucase_in_D c, ucase_links_claimed c, ucase_spec2_ok c, ucase_spec3_ok c).\nPrint verdicts.\n"
                   % uc[0][len("coq-ucase: "):])
         else:
             v += ("Definition c : lcase := %s.\nDefinition model := Eval vm_compute in image_run (lc_extract c) (lc_max c) MARK (lc_init c) (lc_layers c).\nPrint model.\n"
                   "Definition verdicts := Eval vm_compute in (lcase_model_ok c, lcase_spec_ok c).\nPrint verdicts.\n"
                   % lc[0][len("coq-lcase: "):])
         rc, out = ctx.run_cases("C06_replay", v)
-        print("model / (model_ok, spec_ok[, in_D]):")
+        print("model / (model_ok, spec_ok[, in_D, kept-link oracle claimed, kept-link oracle ok, no-file-outside ok]):")
         print(out)
     return 0
 
